@@ -820,7 +820,8 @@ Lemma orders_hyps_ok_sound : forall E noops tbl,
       order_ok E dir (fun s => existsb (Nat.eqb s) noops) [] ns = true /\ norm (ntype root) = norm t.
 Proof.
   intros E noops tbl H dir t ns Hl. apply lookup_ty_in in Hl.
-  unfold TL.Model.BuildTables.orders_hyps_ok in H. rewrite forallb_forall in H. specialize (H _ Hl). cbn [fst snd] in H.
+  unfold TL.Model.BuildTables.orders_hyps_ok in H. apply andb_prop in H. destruct H as [H _].
+  rewrite forallb_forall in H. specialize (H _ Hl). cbn [fst snd] in H.
   apply andb_prop in H. destruct H as [H12 H3]. apply andb_prop in H12. destruct H12 as [H1 H2].
   destruct (rev ns) as [|root r] eqn:Er; [discriminate H3|].
   exists (rev r), root. split; [|split].
